@@ -65,6 +65,14 @@ type faultPlan struct {
 	ErrName string
 	Partial string
 
+	// Rewrite (group G, rewrite_fault_test.go): the window is not the
+	// acceptance but the FIRST meta-data rewrite of the victim - it is opened by
+	// the scripted downstream when the victim's first attempt starts and shut
+	// when its second attempt starts.
+	Rewrite    bool
+	firedIndex int
+	installed  bool
+
 	mu        sync.Mutex
 	armed     bool
 	dir       string
@@ -85,10 +93,24 @@ func (fp *faultPlan) arm(dir, victim string) {
 	osshim.SetFaultFunc(fp.hook)
 }
 
+// install puts the hook in place with the window still shut (group G).
+func (fp *faultPlan) install(dir, victim string) {
+	fp.mu.Lock()
+	fp.installed, fp.dir, fp.victim = true, dir, victim
+	fp.mu.Unlock()
+	osshim.SetFaultFunc(fp.hook)
+}
+
+func (fp *faultPlan) window(open bool) {
+	fp.mu.Lock()
+	fp.armed = open
+	fp.mu.Unlock()
+}
+
 func (fp *faultPlan) disarm() {
 	fp.mu.Lock()
-	was := fp.armed
-	fp.armed = false
+	was := fp.armed || fp.installed
+	fp.armed, fp.installed = false, false
 	fp.mu.Unlock()
 	if was {
 		osshim.SetFaultFunc(nil)
@@ -109,6 +131,7 @@ func (fp *faultPlan) hook(op osshim.Op) *osshim.Fault {
 		return nil
 	}
 	fp.fired, fp.firedKind, fp.firedFile, fp.firedLen = true, op.Kind, fileKind(op.Path), len(op.Data)
+	fp.firedIndex = op.Index
 	keep := 0
 	if op.Kind == "write" || op.Kind == "writeat" {
 		switch fp.Partial {
